@@ -147,7 +147,14 @@ func usage() {
 // Rand is a splitmix64 PRNG.
 type Rand struct{ s uint64 }
 
-func NewRand(seed uint64) *Rand { return &Rand{s: seed*0x9E3779B97F4A7C15 + 0x1234567} }
+func NewRand(seed uint64) *Rand {
+	// hash the seed first: consecutive seeds must not give shifted copies of one sequence
+	z := seed ^ 0xD6E8FEB86659FD93
+	z = (z ^ (z >> 32)) * 0xD6E8FEB86659FD93
+	z = (z ^ (z >> 32)) * 0xD6E8FEB86659FD93
+	z ^= z >> 32
+	return &Rand{s: z}
+}
 
 func (r *Rand) U64() uint64 {
 	r.s += 0x9E3779B97F4A7C15
